@@ -36,7 +36,7 @@ ASSUMPTIONS = [
 PROBES = ["restart_after_other_use", "feature_all_steps", "resim_old_buffers_checked", "shared_underlier_resim",
           "prev_output_corrupted_then_hedged", "model_raise_then_hedged", "hedger_cast", "listed_hedge",
           "lazy_model", "requires_grad_flag_flipped", "kept_feature_reused", "listed_quote_vs_fresh_pricer", "clone_opposite_grad_mode", "clone_opposite_module_mode",
-          "kept_bs_module_reused", "fresh_contract_twin", "listed_pricer_raised", "feature_object_shared_by_two_hedgers", "attribute_assigned_on_live_object", "relisted_between_calls"]
+          "kept_bs_module_reused", "mixed_precision_hedge_list", "fresh_contract_twin", "listed_pricer_raised", "feature_object_shared_by_two_hedgers", "attribute_assigned_on_live_object", "relisted_between_calls"]
 
 
 class SimFault(RuntimeError):
@@ -307,7 +307,12 @@ def generate(rng):
             emit(op, actor)
         elif kind == "quant":
             qk = rng.wchoice([("payoff", 2), ("feature", 5), ("listed_spot", 3), ("bs_bound", 2), ("bs_explicit", 2),
-                              ("autogreek", 1), ("criterion", 4), ("functional", 2), ("pl_view", 1), ("crit_on_pl", 1), ("twin", 3)])
+                              ("autogreek", 1), ("criterion", 4), ("functional", 2), ("pl_view", 1), ("crit_on_pl", 1), ("twin", 3),
+                              ("mixed_hedge", 1)])
+            if qk == "mixed_hedge":
+                emit({"op": "quant", "kind": qk, "order": rng.choice(["low_first", "high_first"]), "which": rng.choice(["pl", "hedge", "portfolio"]),
+                      "n": rng.choice([1, 3]), "seed": rng.seed31(), "low": rng.choice([None, "float32"])}, actor)
+                continue
             if qk in ("payoff", "feature", "listed_spot", "bs_bound", "pl_view", "crit_on_pl", "twin"):
                 cands = [d for d in derivs if sim[d["underlier"]] is not None and not too_short(d)]
                 if qk == "listed_spot":
@@ -857,6 +862,33 @@ def _do_quant(world, op, stats, hist, seq):
                             "argument": list(arg), "live": a_, "fresh_contract_on_same_underlier": b_, "dtype_live": str(a_.dtype),
                             "dtype_fresh": str(b_.dtype)}, seq)
             out = d.payoff_fn()
+            hazard = True
+        elif k == "mixed_hedge":
+            # two hedging instruments of different precision in one hedge list (a float32 stock next to a float64 one):
+            # whatever the hedger makes of it, the instruments keep their series and their declared dtype
+            import pfhedge.instruments as pfi
+            torch.manual_seed(op["seed"])
+            lo = pfi.BrownianStock(sigma=0.2, cost=1e-3, dtype=DT[op["low"]])
+            hi = pfi.BrownianStock(sigma=0.3, cost=0.0, dtype=torch.float64)
+            dd = pfi.EuropeanOption(lo if op["order"] == "low_first" else hi, maturity=5 / 250)
+            dd.simulate(n_paths=op["n"])
+            (hi if op["order"] == "low_first" else lo).simulate(n_paths=op["n"], time_horizon=dd.maturity)
+            insts = [lo, hi] if op["order"] == "low_first" else [hi, lo]
+            before = [({n_: b_.detach().clone() for n_, b_ in i_.named_buffers()}, i_.dtype) for i_ in insts]
+            hg = pfn.Hedger(pfn.Naked(out_features=2), ["zeros"])
+            site = "mixed-precision hedge list:%s" % op["which"]
+            with torch.no_grad():
+                out = {"pl": hg.compute_pl, "hedge": hg.compute_hedge, "portfolio": hg.compute_portfolio}[op["which"]](dd, hedge=insts)
+            stats.probe("mixed_precision_hedge_list")
+            for i_, (bufs0, decl0) in zip(insts, before):
+                now = {n_: b_ for n_, b_ in i_.named_buffers()}
+                stats.checks += 1
+                if i_.dtype != decl0 or sorted(now) != sorted(bufs0) or any(
+                        now[n_].dtype != bufs0[n_].dtype or not bit_equal(now[n_], bufs0[n_]) for n_ in now):
+                    raise Violation(ID, "market_data_mutated", site, {
+                        "declared_before": str(decl0), "declared_after": str(i_.dtype),
+                        "buffers_before": {n_: str(b_.dtype) for n_, b_ in bufs0.items()},
+                        "buffers_after": {n_: str(b_.dtype) for n_, b_ in now.items()}}, seq)
             hazard = True
         elif k == "listed_spot":
             from ..world import make_pricer
